@@ -1027,4 +1027,16 @@ pub mod verif {
   pub fn flag_excluded_devices(devices: Vec<ExtractedInputDevice>, excludes: &[&str]) -> Vec<(ExtractedInputDevice, bool)> {
     flag_excluded_input_devices(devices, excludes).into_iter().map(|d| (d.extracted_keyboard, d.excluded)).collect()
   }
+  
+  // The private per-device loop on the real driver (mio poll, the evdev and
+  // tablet-switch readers, the uinput writer) over already open descriptors.
+  pub fn run_real_driver_on_fds(keyboard_fd: std::os::unix::io::RawFd, tablet_fd: Option<std::os::unix::io::RawFd>, out_fd: std::os::unix::io::RawFd, layout: Layout, verbose: bool) -> Result<(), String> {
+    let rw = RW {
+      r: DevInputReader { fd: keyboard_fd },
+      w: DevInputWriter::verif_from_fd(out_fd),
+      t: tablet_fd.map(|fd| TabletModeSwitchReader { fd })
+    };
+    let mut driver = RealDriver { rw };
+    do_remapping_loop_one_device(&mut driver, layout, verbose)
+  }
 }
